@@ -94,6 +94,11 @@ def session(sess, n, t, keys, rootkind, combos):
         for mode, want in (("all", ("InvalidSignatureShare", ch)), ("first", ("InvalidSignatureShare", ch[:1])), ("disabled", ("InvalidSignature", []))):
             a2 = aggregate(sess, suite, msg, comms, z2, outpkp, mode, EXACT)
             sess.oracle((a2.err, a2.culprits()) == want, "cheater identification in parity case (R %s): expected %s, got %s" % (parity(R), want, a2.raw), rp())
+        if root is not None:
+            # the same through aggregate_with_tweak itself (first-cheater mode), from the untweaked package
+            a3 = sess.call("tr_aggregate %s msg=%s comms=%s shares=%s pkp=%s root=%s" % (suite, msg, comms, shares_str(z2), pkp, root), EXACT, "tr_aggregate-cheater")
+            sess.oracle((a3.err, a3.culprits()) == ("InvalidSignatureShare", ch[:1]),
+                        "aggregate_with_tweak: cheater identification in parity case (internal key %s, R %s): expected %s, got %s" % (parity(internal), parity(R), ch[:1], a3.raw), rp())
         bad = sess.call("verify_share %s id=%s Y=%s z=%s msg=%s comms=%s vk=%s" % (suite, ch[0], out["vshares"][ch[0]], z2[ch[0]], msg, comms, out["vk"]), EXACT, "verify_share-bad")
         sess.oracle(bad.err == "InvalidSignatureShare", "altered Taproot share accepted by verify_signature_share", rp())
     combo = (parity(internal), parity(out["vk"]), parity(R))
